@@ -45,7 +45,8 @@ MAX_HANGS = 3
 
 # ------------------------------------------------------------------ case description (JSON-able)
 # node  := ["f", seed, size, pattern] | ["d", [[name, node], ...]] | ["s", "fifo"|"link"]
-# filter:= ["none"] | ["reject", [names]] | ["only", [names]] | ["suffix", s] | ["maxlen", n]
+# pred  := ["reject", [names]] | ["only", [names]] | ["suffix", s] | ["maxlen", n]
+# filter:= ["none"]  (filter=None)  |  pred  (a plain function)  |  ["obj", truthy, pred]  (a callable object with a truth value)
 
 def file_bytes(nd):
     _, seed, size, pat = nd
@@ -62,10 +63,25 @@ def enc(name):
     return name.encode("utf-8")
 
 
+class Pred:
+    """a callable filter object with an explicit truth value (think: a callable collection of accepted names, empty = falsy)"""
+
+    def __init__(self, fn, truth):
+        self.fn, self.truth = fn, truth
+
+    def __call__(self, name):
+        return self.fn(name)
+
+    def __bool__(self):
+        return self.truth
+
+
 def py_filter(flt):
     k = flt[0]
     if k == "none":
         return None
+    if k == "obj":
+        return Pred(py_filter(flt[2]), bool(flt[1]))
     if k == "reject":
         s = set(flt[1])
         return lambda n: n not in s
@@ -81,14 +97,26 @@ def py_filter(flt):
 
 
 def accepts(flt, name):
+    """what the caller asked for: None accepts everything, anything else accepts what it returns true for"""
     f = py_filter(flt)
     return True if f is None else bool(f(name))
 
 
+def is_falsy_object(flt):
+    return flt[0] == "obj" and not flt[1]
+
+
 def sx_filter(flt):
+    """() = None, (truthy pred) = callable"""
+    if flt[0] == "none":
+        return []
+    if flt[0] == "obj":
+        return [1 if flt[1] else 0, sx_pred(flt[2])]
+    return [1, sx_pred(flt)]
+
+
+def sx_pred(flt):
     k = flt[0]
-    if k == "none":
-        return [0]
     if k == "reject":
         return [1, [enc(n) for n in flt[1]]]
     if k == "only":
@@ -231,6 +259,13 @@ def expected_dst(src, dst, flt, top=True):
     return ("d", out)
 
 
+def unfiltered_dst(src, dst):
+    try:
+        return expected_dst(src, dst, ["none"])
+    except Conflict:
+        return ("conflict",)
+
+
 def first_difference(exp, got, path=""):
     """(signature-kind, path) of the first difference between two canonical trees, or None"""
     if exp == got:
@@ -299,6 +334,13 @@ def names_in(nd, acc):
 
 
 def gen_filter(r, src):
+    f = gen_pred(r, src)
+    if f[0] != "none" and r.random() < 0.12:
+        return ["obj", r.random() < 0.4, f]       # a callable object; 60% of them false in a boolean context
+    return f
+
+
+def gen_pred(r, src):
     present = names_in(src, []) or ["a"]
     c = r.random()
     if c < 0.25:
@@ -359,7 +401,7 @@ def gen_case(r, i):
     case["filter"] = gen_filter(r, case["src"])
     e = r.random()
     if case["src"] is not None and case["src"][0] != "s" and e < 0.35:
-        case["dst"] = gen_existing(r, case["src"], chunk, allow_conflict=(e < 0.08))
+        case["dst"] = gen_existing(r, case["src"], chunk, allow_conflict=(e < 0.08 and not is_falsy_object(case["filter"])))
     elif e > 0.97:
         case["dst"] = ["d", []]
     if r.random() < 0.02:
@@ -463,6 +505,15 @@ class RecFile:
 
     def __exit__(self, *a):
         self.f.close()
+
+
+def gen_guard():
+    """which filter guard the current tree has (follows the generated skeleton; falls back to the truthiness test)"""
+    try:
+        txt = open(C.COQ + "/gen/Gen_classic.v").read()
+        return 1 if txt.count("dk_guard := GIsNone") == 2 else 0
+    except OSError:
+        return 0
 
 
 def run_tree_impl(rig, case):
@@ -570,7 +621,7 @@ def check_trees(ctx, model, rig, cases):
         runs.append((src0, dst0, out, src1, dst1))
         up = case["dir"] == "upload"
         l, rm = (src0, dst0) if up else (dst0, src0)
-        mcases.append(["transfer", 0 if up else 1, case["chunk"], 1 if case["ign"] else 0, sx_filter(case["filter"]),
+        mcases.append(["transfer", gen_guard(), 0 if up else 1, case["chunk"], 1 if case["ign"] else 0, sx_filter(case["filter"]),
                        sx_of_canon(l), sx_of_canon(rm)])
     res = model.batch(mcases) if model else None
     for i, case in enumerate(cases):
@@ -585,7 +636,7 @@ def check_trees(ctx, model, rig, cases):
                  nontrivial=(count_entries(src0) >= 2 or (topkind == "file" and len(src0[1]) >= 1)), sample=small(case))
         ctx.count("tree:" + case["dir"])
         ctx.count("tree:top:" + topkind)
-        ctx.count("tree:filter:" + flt[0])
+        ctx.count("tree:filter:" + (flt[0] if flt[0] != "obj" else ("object-truthy:" if flt[1] else "object-falsy:") + flt[2][0]))
         ctx.count("tree:dst:" + ("absent" if dst0 is None else "existing"))
         ctx.count("tree:chunk:" + (str(chunk) if chunk in CHUNKS or chunk == 0 else "random"))
         # --- oracle
@@ -604,7 +655,13 @@ def check_trees(ctx, model, rig, cases):
                               observed=out, expected="returns", what=where + " raised/hung on a valid tree")
             else:
                 d = first_difference(exp, dst1)
-                if d:
+                if d and is_falsy_object(flt) and dst1 == unfiltered_dst(src0, dst0):
+                    ctx.violation("falsy-filter-treated-as-no-filter", case, observed={"at": d[1], "destination": brief(dst1)},
+                                  expected={"destination": brief(exp)},
+                                  what="%s with a callable filter object that is false in a boolean context (e.g. an empty callable set of accepted names) "
+                                       "copies the entries the filter rejects: `not filter or filter(fn)` tests the object's truth value instead of `filter is None`"
+                                       % case["dir"])
+                elif d:
                     ctx.violation("tree:%s:%s" % (case["dir"], d[0]), case, observed={"at": d[1], "destination": brief(dst1)},
                                   expected={"destination": brief(exp)},
                                   what=where + ": destination differs from the filtered source at " + (d[1] or "/"))
@@ -658,7 +715,8 @@ def run(ctx):
     n_file, n_tree, n_prune = (420, 700, 300) if ctx.quick else (6000, 9000, 4000)
     ctx.coverage_extra["rule"] = ("file cases: every chunk in {1,2,3,7,64,4096,64000} and random chunks x sizes {0,1,c-1,c,c+1,2c-1,2c,2c+1,3c,random}, "
                                   "upload_file/download_file with instrumented file objects; tree cases: random trees (depth <= 4, fan-out <= 5, empty dirs and files, "
-                                  "fifos/dangling links, unicode/space/dot names, sizes around multiples of the chunk), filters none/reject/only/suffix/maxlen, "
+                                  "fifos/dangling links, unicode/space/dot names, sizes around multiples of the chunk), filters None / functions reject/only/suffix/maxlen / "
+                                  "callable objects with a truth value (true or false), "
                                   "35% into an overlapping existing destination, malformed: missing/special top, chunk 0, file-vs-directory conflicts; "
                                   "non-trivial = file of >= 1 byte, or tree with >= 2 entries; distinct by (direction, chunk, filter, content digests)")
     rig = Rig()
@@ -675,6 +733,8 @@ def run(ctx):
              "src": ["d", [["big", ["f", 7, 128001, 0]], ["e", deep]]]},
             {"kind": "tree", "dir": "upload", "chunk": 1, "ign": False, "filter": ["only", []], "dst": None, "src": ["d", [["a", ["f", 8, 3, 0]]]]},
             {"kind": "tree", "dir": "download", "chunk": 2, "ign": False, "filter": ["none"], "src": ["f", 9, 5, 0], "dst": ["f", 10, 50, 1]},
+            {"kind": "tree", "dir": "upload", "chunk": 5, "ign": False, "filter": ["obj", False, ["only", []]], "dst": None,
+             "src": ["d", [["secret.key", ["f", 11, 6, 0]], ["sub", ["d", [["x", ["f", 12, 1, 0]]]]]]]},
         ]
         check_trees(ctx, model, rig, fixed)
         check_files(ctx, model, rig, [gen_file_case(r, i) for i in range(n_file)])
